@@ -60,6 +60,17 @@ def make_data(spec, seed):
     kind = spec[0]
     if kind == "rows":            # multiset of lattice rows
         return np.array(spec[1], dtype=float)
+    if kind in ("rows_ulp", "rows_huge"):
+        # the same multisets over three values that are ADJACENT doubles (any arithmetic on two neighbouring thresholds rounds onto one
+        # of them) / over values whose sums and differences overflow
+        a = 0.3
+        table = np.array([a, np.nextafter(a, 1), np.nextafter(np.nextafter(a, 1), 1)]) if kind == "rows_ulp" else np.array([-1e308, 1e308, 1.7e308])
+        return table[np.array(spec[1], dtype=int)]
+    if kind == "blobs":           # hundreds of samples in overlapping groups: trees with dozens of leaves
+        _, n, d = spec
+        rs = np.random.RandomState(43_000 + 13 * seed + n + d)
+        centres = rs.normal(size=(6, d)) * 1.5
+        return centres[rs.randint(6, size=n)] + rs.normal(size=(n, d))
     if kind == "generic":
         _, n, d = spec
         rs = np.random.RandomState(41_000 + 13 * seed + 5 * n + d)
@@ -418,6 +429,11 @@ def explorers(tier, seed):
         for kern in ("linear", "rbf", "indef", "lin_small", "rbf_big"):
             for p in (grid if thorough else grid[::3]):
                 c3.append((spec, kern, p, seed))
+    for kind in ("rows_ulp", "rows_huge"):
+        for _, rows in list(row_multisets(4, 1)) + list(row_multisets(5, 1)) + list(row_multisets(4, 2))[::9]:
+            for kern in ("psd", "indef"):
+                for p in grid[::3] if not thorough else grid:
+                    c3.append(((kind, rows), kern, p, seed))
     return [
         Explorer("state_search", "props.c08", "state_search", c1, kind="bfs", chunk=2, floor=200, case_timeout=900,
                  rule="BFS over tree states from the root with ANY admissible (leaf, feature, threshold, star/double-star/switch/"
@@ -431,7 +447,7 @@ def explorers(tier, seed):
                  rule="hand-seeded states with >=4 clusters where one cluster owns two leaves (n=8, one feature) under many seed-generic symmetric "
                       "kernels, exploring the first leaf alone and all leaves; non-trivial = >=2 positive alternatives", exhaustive=False),
         Explorer("greedy_runs", "props.c08", "greedy_run", c3, kind="bfs", chunk=8, floor=100,
-                 rule="real Kauri.fit on lattice row multisets / generic data x kernels x parameter grid with a spy on "
+                 rule="real Kauri.fit on lattice row multisets (also over adjacent doubles and over values near the overflow limit) / generic data x kernels x parameter grid with a spy on "
                       "gemclus.tree.kauri.find_best_split: every call checked against the oracle, final score == root score + sum of gains, "
                       "score(X) == objective(labels_)", exhaustive=False),
     ]
